@@ -17,7 +17,7 @@ def facts : DebugLoopFacts :=
 
 /-- fingerprints (extract/common FuncHash) of the functions Model/Debug.lean was transcribed from -/
 def sourceHashes : List (String × String) :=
-  [("runCfg", "779a155758bc7eef"),
+  [("runCfg", "d90b0b7ab1fcffd5"),
    ("isExecNode", "d5744b63d90e06d6"),
    ("originalExecNode", "585d511d42ee5a5b"),
    ("Debugger.exec", "9855b3f1a0ee5129"),
